@@ -5,6 +5,7 @@ import (
 	"fmt"
 	"net/http"
 	"net/http/httptest"
+	"net/url"
 	"strings"
 
 	"github.com/gookit/rux"
@@ -220,6 +221,13 @@ func pathFinish(s *Summary) {
 					registered[seen] = false
 				}
 			}
+			// an internal redirect: the handler replaces the request URL and re-dispatches on the same context
+			r.GET("/zz-redispatch", func(c *rux.Context) {
+				if nu, err := url.ParseRequestURI(c.Req.Header.Get("X-Target")); err == nil {
+					c.Req.URL = nu
+					c.Router().HandleContext(c)
+				}
+			})
 			for _, u := range pathSt.urls {
 				if !u.Wellformed {
 					continue
@@ -248,6 +256,20 @@ func pathFinish(s *Summary) {
 					}
 					if got != want {
 						desc["what"] = fmt.Sprintf("GET %s (UseEncodedPath=%s strict=%s) served by %q, spec: the route with path %q", raw, enc, st, got, want)
+						s.mismatch(desc, u)
+						return
+					}
+					// the same URL as the target of an internal redirect resolves the same way
+					w2 := httptest.NewRecorder()
+					rq2, _ := http.NewRequest("GET", "http://example.com/zz-redispatch", nil)
+					rq2.Header.Set("X-Target", raw)
+					r.ServeHTTP(w2, rq2)
+					got2 := w2.Body.String()
+					if w2.Code == 404 {
+						got2 = "<404>"
+					}
+					if got2 != want {
+						desc["what"] = fmt.Sprintf("GET %s as the target of HandleContext (UseEncodedPath=%s strict=%s) served by %q, a direct request by %q", raw, enc, st, got2, want)
 						s.mismatch(desc, u)
 					}
 				})
